@@ -145,11 +145,21 @@ def check_conc(prop, tier, seed):
     geos, jobs = conc_jobs(tier, seed)
     vlib.build_all(geos)
     outs = gen_and_validate(res, jobs, [prop], par=vlib.NCPU)
+    sj, sfiles, ntotal = synth_jobs(tier, seed, geos, sample=(150 if tier == "quick" else None))
+    try:
+        outs += gen_and_validate(res, sj, [prop], par=vlib.NCPU)
+    finally:
+        for f in sfiles:
+            if os.path.exists(f):
+                os.unlink(f)
+    res.cov["synthesised_scenarios"] = ntotal
     if prop in ("C04", "C13"):
         gen_and_validate(res, seq_jobs(tier, seed, 0.6), [prop])
     res.cov["schedules_validated"] = sum(o.get("segments", 0) for o in outs)
-    res.cov["rule"] = ("scenario catalogue spec/scenarios.json (race windows L1-L8 of the lower allocator, U1-U8 of the "
-                       "upper allocator) on geometries %s; the real code runs under a baton scheduler with one "
+    res.cov["rule"] = ("scenario catalogue spec/scenarios.json (race windows L1-L9 of the lower allocator, U1-U10 of the "
+                       "upper allocator) plus synthesised two-thread scenarios (bin/scngen.py: 12 allocator states x every "
+                       "ordered pair of operations of a per-state alphabet; a seeded sample in the quick tier, all of them "
+                       "and three-thread combinations in the thorough tier) on geometries %s; the real code runs under a baton scheduler with one "
                        "scheduling point per atomic access: depth-first enumeration of all schedules with <= %s "
                        "pre-emptions plus seeded PCT schedules; every distinct observable execution (calls, results, "
                        "final observation) is validated by TLC against TraceAbs (linearizability w.r.t. Abs, no panic, "
@@ -191,6 +201,16 @@ def check_c05(prop, tier, seed):
             a += ["bound=1", "limit=150", "every=2"] if tier == "quick" else ["bound=2", "limit=3000", "every=1", "pct=300"]
             jobs.append((g, a))
     outs = gen_and_validate(res, jobs, [prop], par=vlib.NCPU)
+    # crash points inside synthesised two-thread scenarios
+    sj, sfiles, ntotal = synth_jobs(tier, seed, geos, extra=(["crash=1", "every=2", "bound=1", "limit=60", "pct=0"] if tier == "quick"
+                                                           else ["crash=1", "every=1", "bound=2", "limit=600"]),
+                                    sample=(80 if tier == "quick" else 400))
+    try:
+        gen_and_validate(res, sj, [prop], par=vlib.NCPU)
+    finally:
+        for f in sfiles:
+            if os.path.exists(f):
+                os.unlink(f)
     # recovery at quiescent points of random histories (Reinit action)
     gen_and_validate(res, seq_jobs(tier, seed, 0.4), [prop])
     res.cov["rule"] = ("crash points = every atomic write to the lower (persistent) metadata buffer plus the end of the "
@@ -220,6 +240,15 @@ def check_c21(prop, tier, seed):
                  ["bound=2", "limit=4000", "bases=4000", "nbases=150"]
             jobs.append((g, a))
     gen_and_validate(res, jobs, [prop], par=vlib.NCPU)
+    sj, sfiles, ntotal = synth_jobs(tier, seed, geos, extra=(["solo=1", "bound=1", "limit=40", "bases=40", "nbases=4", "pct=0"] if tier == "quick"
+                                                           else ["solo=1", "bound=2", "limit=600", "bases=600", "nbases=40"]),
+                                    sample=(100 if tier == "quick" else None))
+    try:
+        gen_and_validate(res, sj, [prop], par=vlib.NCPU)
+    finally:
+        for f in sfiles:
+            if os.path.exists(f):
+                os.unlink(f)
     res.cov["rule"] = ("for base schedules (non-preemptive ones and a sample of the DFS schedules) of every scenario: at "
                        "every scheduling point p and for every thread t with a call in flight, the execution is re-run "
                        "with prefix p and then only t scheduled until its call returns; the number of t's steps and the "
@@ -640,3 +669,24 @@ def check_c05_fine(prop, tier, seed):
 
 
 PLANS["C05"] = check_c05_fine
+
+
+def synth_jobs(tier, seed, geos, extra=(), sample=None):
+    """synthesised two-thread scenarios (bin/scngen.py): files of ~40 scenarios, one harness job each"""
+    import scngen, random
+    jobs, files, total = [], [], 0
+    for g in geos:
+        sc = scngen.scenarios(g, with_triples=(tier == "thorough"), with_known=(tier == "thorough"))
+        rnd = random.Random(seed * 7919 + len(g))
+        rnd.shuffle(sc)
+        if sample:
+            sc = sc[:sample]
+        total += len(sc)
+        for c in range(0, len(sc), 40):
+            p = os.path.join(vlib.WORK, "synth-%s-%d-%d.json" % (g, os.getpid(), c))
+            json.dump(sc[c:c + 40], open(p, "w"))
+            files.append(p)
+            a = ["conc", "scn=" + p, "seed=%d" % seed]
+            a += ["bound=2", "limit=250", "pct=20", "depth=3"] if tier == "quick" else ["bound=3", "limit=4000", "pct=300", "depth=4"]
+            jobs.append((g, a + list(extra)))
+    return jobs, files, total
